@@ -33,6 +33,18 @@
 (* certain once TLC reports completion).  With AllowSkip = FALSE (used on  *)
 (* a single round) acceptance is the high-water mark of consumed lines     *)
 (* checked by the POSTCONDITION Accepted; run with -workers 1.             *)
+(*                                                                         *)
+(* Property predicates (bin/fam_conc.py names a rejected round after its   *)
+(* kind; the verdict is always "TLC found no walk through the round"):     *)
+(*   P19_Linearizable  rounds of kind map / cont                           *)
+(*   P19_NoLostUpdate  rounds of kind flag / counter / i64 / u32 / u64 /   *)
+(*                     str and the bulk outcomes (BulkOK)                  *)
+(*   P19_OneSchedule   rounds of kind sched: one history per built-in      *)
+(*                     function = all repricings + that function's         *)
+(*                     executions; an execution returns the gas it         *)
+(*                     consumed, which must be Price(k, k, m, n) for the   *)
+(*                     schedule k the register holds at its Lin step       *)
+(*   P19_NoRace        any round containing a "race" line                  *)
 (***************************************************************************)
 EXTENDS Integers, Sequences, FiniteSets, TLC, Json
 
